@@ -21,6 +21,13 @@ def main():
     from rogw.tranp.app.dir import tranp_dir
     import importlib.util
     d = TokenDefinition()
+    # regular-expression post filters are modelled as never emptying a white space token: the pattern must
+    # have a mandatory literal character that is not white space (read from CPython's own regex parser)
+    import re
+    for ty, pat in d.post_filters:
+        if pat not in ('*', TokenDefinition.MatchBeginOrEnd):
+            items = list(re._parser.parse(pat))
+            assert any(str(op) == 'LITERAL' and chr(arg) not in d.white_space for op, arg in items), 'unexpected post filter pattern %r' % pat
     assert all(isinstance(x, TokenDomains) for x in d.analyze_order)
     spec = importlib.util.spec_from_file_location('gram_tokenizer', os.path.join(tranp_dir(), 'data/syntax/gram_tokenizer.py'))
     mod = importlib.util.module_from_spec(spec)
